@@ -1,6 +1,7 @@
 (** Examples for C05/C06: the models compute, and the hypotheses of the theorems are satisfiable. *)
 From RB Require Import Base.Prelude Sig.Types Wire.Bytes Wire.Text Wire.Value Wire.SpecEnc Names.Spec
-  Msg.Flags Msg.Utf8 Msg.Header Msg.HeaderSpec Msg.MsgSpec Msg.HeaderDecode Msg.HeaderProofs Msg.DecodeSound Msg.DecodeComplete Msg.Round.
+  Msg.Flags Msg.Utf8 Msg.Header Msg.HeaderSpec Msg.MsgSpec Msg.HeaderDecode Msg.HeaderProofs Msg.DecodeSound Msg.DecodeComplete Msg.Round Msg.Accept.
+From RB Require Import Names.Model Names.Proofs Sig.Validator.
 
 (** a method call "M" on "/p", interface "a.b", body = one u32 (5), little endian, serial 7 *)
 Definition ex_call : msg := with_body (build_call false [77] (Some [47; 112]) (Some [97; 46; 98]) None) [5; 0; 0; 0] [117] 0.
@@ -41,6 +42,20 @@ Proof.
   assert (Hb : bytes_ok ex_call_bytes) by (repeat constructor; unfold byte_ok; lia).
   assert (Hd : decode_header ex_call_bytes = Ok (hdr_of_msg ex_call 7, 71)) by (vm_compute; reflexivity).
   exact (proj2 (decode_header_sound ex_call_bytes _ _ Hb Hd)).
+Qed.
+
+(* acceptance, as an instance of the theorem: the hypotheses are satisfiable *)
+Example ex_call_fields_valid : fields_valid ex_call.
+Proof.
+  split; [|intros _; vm_compute; reflexivity]. unfold names_valid. cbn.
+  refine (conj _ (conj I (conj I (conj _ (conj _ I))))).
+  - apply (validated validate_interface _ _ validate_interface_spec). vm_compute. reflexivity.
+  - apply (validated validate_membername _ _ validate_membername_spec). vm_compute. reflexivity.
+  - apply (validated validate_object_path _ _ validate_object_path_spec). vm_compute. reflexivity.
+Qed.
+Example ex_call_accept : marshal_msg ex_call 7 = Ok (spec_header ex_call 7).
+Proof.
+  apply marshal_accept; [exact ex_call_typed|exact ex_call_fields_valid|discriminate|vm_compute; discriminate|vm_compute; discriminate|cbn; lia].
 Qed.
 
 (* refusal: a member name starting with a digit, and the Invalid type *)
